@@ -10,7 +10,7 @@ F = f'{REPO}/bumble/hci.py'
 # (name, old text, new text, --only filter that selects lemmas able to see it)
 MUTANTS = [
     ('M01 parse u24: pad with two zero bytes (off by one)', "padded = data[offset : offset + 3] + bytes([0])", "padded = data[offset : offset + 2] + bytes([0, 0])", 'cmd/HCI_Inquiry_Command'),
-    ('M02 serialize s16 as unsigned', "return struct.pack('<h', field_value)", "return struct.pack('<H', field_value)", 'kind/int16s'),
+    ('M02 serialize s8 as unsigned', "return struct.pack('b', field_value)", "return struct.pack('B', field_value)", 'kind/int8s'),
     ('M03 array parse: item count byte not skipped', "                item_count = data[offset]\n                offset += 1\n", "                item_count = data[offset]\n", 'evt/HCI_Number_Of_Completed_Packets_Event'),
     ('M04 command header: length byte off by one', "struct.pack('<BHB', HCI_COMMAND_PACKET, self.op_code, len(parameters))", "struct.pack('<BHB', HCI_COMMAND_PACKET, self.op_code, len(parameters) + 1)", 'cmd/HCI_Disconnect_Command'),
     ('M05 event parse: surplus bytes kept', "parameters = packet[3 : 3 + parameters_length]", "parameters = packet[3:]", 'generic/event-surplus'),
@@ -18,7 +18,7 @@ MUTANTS = [
     ('M07 ACL: PB flag masked to one bit', "        pb_flag = (h >> 12) & 3\n        bc_flag = (h >> 14) & 3\n", "        pb_flag = (h >> 12) & 1\n        bc_flag = (h >> 14) & 3\n", 'data/acl'),
     ('M08 address type read from the wrong byte', "address_type = AddressType(data[offset - 1])", "address_type = AddressType(data[offset])", 'le/HCI_LE_Connection_Complete_Event'),
     ('M09 status short form on success instead of error', "        if status != HCI_ErrorCode.SUCCESS:\n            # Don't parse further", "        if status == HCI_ErrorCode.SUCCESS:\n            # Don't parse further", 'rp/HCI_Read_BD_ADDR_Command'),
-    ('M10 enum parser ignores the byte order', "                cls(int.from_bytes(data[offset : offset + size], byteorder)),\n            ),\n            'mapper': lambda x: cls(x).name,\n        }\n\n    @classmethod\n    def type_metadata(\n        cls,\n        size: int,\n        list_begin: bool = False,\n        list_end: bool = False,\n        byteorder: Literal['little', 'big'] = 'little',\n    ):\n        return metadata(\n            cls.type_spec(size, byteorder),\n            list_begin=list_begin,\n            list_end=list_end,\n        )\n\n\nclass SpecableFlag", "                cls(int.from_bytes(data[offset : offset + size], 'big')),\n            ),\n            'mapper': lambda x: cls(x).name,\n        }\n\n    @classmethod\n    def type_metadata(\n        cls,\n        size: int,\n        list_begin: bool = False,\n        list_end: bool = False,\n        byteorder: Literal['little', 'big'] = 'little',\n    ):\n        return metadata(\n            cls.type_spec(size, byteorder),\n            list_begin=list_begin,\n            list_end=list_end,\n        )\n\n\nclass SpecableFlag", 'kind/int16u-little[SpecableEnum]'),
+    ('M10 flag parser uses the opposite byte order', "class SpecableFlag(enum.IntFlag):\n    @classmethod\n    def type_spec(cls, size: int, byteorder: Literal['little', 'big'] = 'little'):\n        return {\n            'serializer': lambda x: x.to_bytes(size, byteorder),\n            'parser': lambda data, offset: (\n                offset + size,\n                cls(int.from_bytes(data[offset : offset + size], byteorder)),", "class SpecableFlag(enum.IntFlag):\n    @classmethod\n    def type_spec(cls, size: int, byteorder: Literal['little', 'big'] = 'little'):\n        return {\n            'serializer': lambda x: x.to_bytes(size, byteorder),\n            'parser': lambda data, offset: (\n                offset + size,\n                cls(int.from_bytes(data[offset : offset + size], 'big' if byteorder == 'little' else 'little')),", 'kind/int16u-little[SpecableFlag]'),
     ('M11 Command Complete: return parameters taken from offset 2', "return_parameters_bytes = parameters[3:]", "return_parameters_bytes = parameters[2:]", 'rp/HCI_Read_BD_ADDR_Command'),
     ('M12 symmetric: u16 big-endian in both directions', None, None, 'kind/int16u-little[2]'),
     ('M13 unknown opcode: parameters dropped', "return HCI_Command(parameters, op_code=op_code)", "return HCI_Command(b'', op_code=op_code)", 'generic/unknown-command'),
